@@ -19,6 +19,7 @@ with a different number of layers must be rejected.
 from __future__ import annotations
 
 import json
+from typing import Any
 
 import torch
 
@@ -52,6 +53,12 @@ def families(tier: str) -> list[dict]:
              fresh_perturb=True),
         dict(method='eigen', prediv=True, F=2, I=3, in_hook=True,
              fresh_perturb=True, model='mlp2nb'),
+        # the state is kept as a live in-memory object while training goes on
+        # (work lost by the crash) and that very object is loaded later
+        dict(method='eigen', prediv=True, F=1, I=2, in_hook=True,
+             inmem_ckpt=True),
+        dict(method='inverse', prediv=False, F=2, I=2, in_hook=False,
+             inmem_ckpt=True, fresh_perturb=True),
     ]
     for i, g in enumerate(gens):
         c = dict(base, **g)
@@ -72,7 +79,7 @@ def families(tier: str) -> list[dict]:
               dict(W=4, k=2, bucket_cap_mb=0.0),
               dict(W=4, k=4, symmetry=True), dict(W=4, k=1),
               dict(W=4, k=2, colocate=False, prediv=False)]
-    for g in (gens[0], gens[1], gens[2], gens[6]):
+    for g in (gens[0], gens[1], gens[2], gens[6], gens[8]):
         c = dict(base, **{**g, 'model': 'mlp3'})
         rcs = [dict(c, **w) for w in worlds if not (
             w.get('colocate') is False and c.get('prediv'))]
@@ -81,6 +88,27 @@ def families(tier: str) -> list[dict]:
                                save_args=(True,), load_args=(True, False)
                                if g is gens[0] else (True,)))
     return fams
+
+
+def check_resume(cfgd: dict, depth: int, invs: list[str]) -> Any:
+    """TLC on spec/KfacResume.tla (self-composition: resumed vs uninterrupted)."""
+    import os
+    from harness.progs import instantiate
+    from harness.tlc import run_tlc, SPEC_DIR
+
+    cfg = kaisa.Config(**cfgd)
+    inst = 'MC_KfacRefR'
+    mod = instantiate('KfacRef', inst, refreplay.ref_constants(
+        cfg, ['Train', 'Step', 'Eval', 'Save', 'Load'], [cfg.accum], [-1],
+        depth, False))
+    res = open(os.path.join(SPEC_DIR, 'KfacResume.tla')).read().replace(
+        'KFACREF_INSTANCE', inst).replace('MODULE KfacResume',
+                                          'MODULE MC_KfacResume')
+    cfgt = 'SPECIFICATION RSpec\nVIEW rview\n' + ''.join(
+        f'INVARIANT {i}\n' for i in invs) + 'CHECK_DEADLOCK FALSE\n'
+    return run_tlc('MC_KfacResume', cfg_text=cfgt,
+                   extra_modules={inst: mod, 'MC_KfacResume': res},
+                   workers=4, deadlock=False, timeout=1800)
 
 
 def rejection() -> list[str]:
@@ -118,8 +146,31 @@ def main(tier: str, seed: int) -> int:
         fams, seed, max_replay=200 if tier == 'quick' else 5000,
         prefer=prefer)
     reffam.report(v, agg, fams, CATS)
+    # design level: resumed == uninterrupted under the stated condition
+    rs_states = 0
+    rfams = [dict(F=1, I=1), dict(F=1, I=3, damping='damp_lin'),
+             dict(F=2, I=2, in_hook=False), dict(F=1, I=2, accum=2),
+             dict(F=2, I=3, method='inverse', damping='damp_lin'),
+             dict(F='int_1_2', I='int_2_1')]
+    from concurrent.futures import ThreadPoolExecutor
+    dres = 8 if tier == 'quick' else 10
+    with ThreadPoolExecutor(max_workers=4) as ex:
+        rres = list(ex.map(lambda f: check_resume(
+            f, dres, ['ResumeEq', 'NoNewRaise']), rfams))
+    for f, r in zip(rfams, rres):
+        rs_states += r.distinct
+        if not r.ok:
+            v.violation(f'TLC: KfacResume {r.violated} violated for {f} '
+                        f'(actions: {[s["_action"][:24] for s in r.trace]})',
+                        {'kind': 'spec', 'prop': str(r.violated)})
+    vac = check_resume(rfams[1], 7, ['NeverYes'])
+    vac2 = check_resume(rfams[1], 7, ['NeverNo'])
+    if vac.ok or vac2.ok:
+        raise RuntimeError('KfacResume: condition outcome unreachable (vacuity)')
     for b in rejection():
         v.violation(b, {'cat': 'rejection', 'msg': b.split(':')[0]})
+    v.coverage['states'] += rs_states
+    v.coverage['kfacresume_states'] = rs_states
     v.coverage['distinct_nontrivial'] = int(agg['stats'].get('loads', 0))
     v.coverage['rule'] = (
         'behaviours over {Train, Step, Save, Load} replayed into the real '
